@@ -880,6 +880,7 @@ func (c *Ctx) lockHeldAny(st *State) Term {
 
 func (c *Ctx) doSend(st *State, fr *Frame, x *ssa.Send) []cont {
 	ch := c.term(fr, x.Chan, st)
+	st.lastSent[ch.S] = c.term(fr, x.X, st)
 	c.sendEffects(st, fr, x, ch, true)
 	return one(st, fr)
 }
@@ -916,6 +917,11 @@ func (c *Ctx) recvEffects(st *State, ch Term, el types.Type) (Term, Term) {
 	v := c.FreshConst(st, "recv", c.Reg.SortOf(el))
 	c.AssumeWF(st, v, el)
 	ok := c.FreshConst(st, "recv.ok", SBool)
+	if _, isCtx := st.ctxDoneChans[ch.S]; isCtx {
+		// Done() channels never carry elements: a receive only completes once they are closed
+		st.Assume(Not(ok))
+		return v, ok
+	}
 	cl := c.Arr(st, famChClosed, ArraySort(SInt, SBool))
 	ln := c.Arr(st, famChLen, ArraySort(SInt, SInt))
 	st.Assume(Implies(Not(ok), And(Select(cl, ch), Eq(v, c.Reg.Zero(el)))))
@@ -965,6 +971,7 @@ func (c *Ctx) doSelect(st *State, fr *Frame, x *ssa.Select) []cont {
 		ss := x.States[i]
 		ch := c.term(f, ss.Chan, s)
 		if ss.Dir == types.SendOnly {
+			s.lastSent[ch.S] = c.term(f, ss.Send, s)
 			c.sendEffects(s, f, x, ch, false)
 			mk(s, f, i, False, nil)
 		} else {
